@@ -144,3 +144,14 @@ package replica
 //@   ensures[the_applied_sequence_advances_only_after_the_rows_are_written] sequence > old(r.family.applied[r.leader]) ==> r.family.writesAtCommit == r.family.writes
 //@   ensures[rows_are_written_at_most_once] r.family.writes == old(r.family.writes) || r.family.writes == old(r.family.writes) + 1
 //@ end
+
+//@ # ---- skipping a damaged log entry (C07 "the log's acknowledged position never runs ahead of what is applied"): an entry
+//@ # that cannot be decoded is acknowledged only when it is the very next one after the acknowledged position - i.e. when
+//@ # everything before it has been acknowledged through the flush path. Acknowledging it while earlier entries are applied
+//@ # but not yet flushed would release those entries from the log before they are durable ------------------------------
+//@ func replicator.IgnoreMessage
+//@   prop C07
+//@   requires r.channel != nil && r.channel.ConsumerGroup != nil && typeis(r.channel.ConsumerGroup, "*queue.consumerGroup") && cast(r.channel.ConsumerGroup, "*queue.consumerGroup").consumedSeq != nil && cast(r.channel.ConsumerGroup, "*queue.consumerGroup").acknowledgedSeq != nil
+//@   modifies cast(r.channel.ConsumerGroup, "*queue.consumerGroup").acknowledgedSeq.val, any(*page.mappedPage).mappedBytes[*]
+//@   ensures[a_damaged_entry_is_acknowledged_only_when_it_directly_follows_the_acknowledged_position] queue.CGack(r.channel.ConsumerGroup) == old(queue.CGack(r.channel.ConsumerGroup)) || (replicaIdx == old(queue.CGack(r.channel.ConsumerGroup)) + 1 && queue.CGack(r.channel.ConsumerGroup) == replicaIdx)
+//@ end
